@@ -43,3 +43,37 @@ Theorem C05_scalar_programs : forall p m,
   run GenScalar.G p = Ok m -> scalar_fragment (p_stmts p) = true -> C05b m = true.
 Proof. exact scalar_programs_satisfy_C05b. Qed.
 Print Assumptions C05_scalar_programs.
+
+(* ---------------------------------------------------------------------------------------------
+   First clause of the property for the WHOLE surface language: for every well-formed program (declared array
+   inputs have a size >= 0, object field names are distinct, function parameters are scalars — array parameters
+   carry no size, the open finding C05/incomplete:array-param-without-size), every type in the MIR is a complete
+   Nada type: operations of the main table and of every function's table, function return types and parameters,
+   outputs, inputs and literals.  (An entry with the empty operation stands for a function record met as an operand;
+   the tracer never produces one.) *)
+From NadaV.PyMini Require Import PyMini.
+From NadaV.Proofs Require Import C05All.
+Theorem C05_all_types_complete : forall p m,
+  wf_stmts (p_stmts p) = true -> Compile.run GenScalar.G p = Ok m -> mir_types_complete m.
+Proof. exact (well_formed_programs_have_complete_types GenScalar.G). Qed.
+Print Assumptions C05_all_types_complete.
+
+(* the invariant behind it: at every point of every well-formed program every recorded type is complete and every
+   bound value has a complete type *)
+Theorem C05_tracing_records_complete_types : forall fuel ρ ss s ρ' s',
+  wf_stmts ss = true -> cenv ρ -> CInv s -> exec GenScalar.G fuel ρ ss s = Ok (ρ', s') -> CInv s' /\ cenv ρ'.
+Proof. exact (exec_complete GenScalar.G). Qed.
+Print Assumptions C05_tracing_records_complete_types.
+
+Example C05_all_types_nonvacuous :
+  exists m, Compile.run GenScalar.G
+    {| p_stmts := [ SLet "a" (RInput "a" "P" "" (IArray (IScalar (MSecret, BInt)) (Some 3)));
+                    SLet "b" (RInput "b" "P" "" (IArray (IScalar (MPublic, BInt)) (Some 3)));
+                    SLet "z" (RZip "a" "b"); SLet "u" (RUnzip "z");
+                    SLet "o" (RObjectNew [("left", "a"); ("pairs", "z")]) ];
+       p_outs := [{| out_name := "o"; out_party := "P"; out_var := "o" |}; {| out_name := "u"; out_party := "P"; out_var := "u" |}] |} = Ok m
+    /\ wf_stmts [ SLet "a" (RInput "a" "P" "" (IArray (IScalar (MSecret, BInt)) (Some 3)));
+                  SLet "b" (RInput "b" "P" "" (IArray (IScalar (MPublic, BInt)) (Some 3)));
+                  SLet "z" (RZip "a" "b"); SLet "u" (RUnzip "z");
+                  SLet "o" (RObjectNew [("left", "a"); ("pairs", "z")]) ] = true.
+Proof. eexists. split; vm_compute; reflexivity. Qed.
